@@ -27,7 +27,8 @@ EXPLANATION = (
 )
 # obligations added during the build phase (seeding rounds, twins, mutation analysis)
 ADDED_IN_BUILD = " Also: the bindings of the length limits and driver arguments (C02.g, C03.i lengths, C07.e, C08.d, C09.f) and C17's position-order / per-group / no-merging obligations are shared: the limits the detections must respect are the configured ones only if they reach the driver. threshold-nonnegative (F-28): MovingWindow's default threshold is a maximum with a non-negative constant; its tuned twin is the known finding F-29."
-EXPLANATION = EXPLANATION + ADDED_IN_BUILD
+ADDED_IN_ROUND_9 = " Round 9: FMT-POSTDOM accepts the formatter call made by a helper or base-class converter _predict delegates to (the value handed back must be the expected formatter's output); C03.e positional-drop is shared."
+EXPLANATION = EXPLANATION + ADDED_IN_BUILD + ADDED_IN_ROUND_9
 
 ASSUMPTIONS = [
     "Python's ast module and evaluation-order/argument-binding semantics as implemented in skverif/symex.py",
